@@ -1,4 +1,6 @@
 import logging
+import os
+import signal
 from enum import IntEnum
 
 from astroid import nodes
@@ -437,6 +439,18 @@ except ImportError:
     _is_pyodide = False
 
 
+_HAS_PROCESS_GROUPS = os.name == "posix"
+
+
+def _stop_process_group(process):
+    """kill what a constexpr child may have started (the child leads a process group of its own)"""
+    if _HAS_PROCESS_GROUPS:
+        try:
+            os.killpg(process.pid, signal.SIGKILL)
+        except OSError:
+            pass
+
+
 def eval_constexpr(data, call_node):
     import json
 
@@ -506,10 +520,12 @@ __result = __json.dumps({call_code})
     import subprocess
     import sys
 
+    # the child gets a process group of its own, so that whatever it starts is stopped with it
     process = subprocess.Popen(
         [sys.executable, "-c", code],
         stdout=subprocess.PIPE,
         stderr=subprocess.PIPE,
+        start_new_session=_HAS_PROCESS_GROUPS,
     )
 
     try:
@@ -518,12 +534,14 @@ __result = __json.dumps({call_code})
     except subprocess.TimeoutExpired:
         # do not leave the child running (wait() reaps it without waiting for its pipes,
         # which a grandchild may keep open)
+        _stop_process_group(process)
         process.kill()
         process.wait()
         raise CompilerError(
             f"Timeout during evaluating constexpr function call {call_node.as_string()}",
             call_node,
         )
+    _stop_process_group(process)
     if process.returncode != 0:
         raise CompilerError(
             f"Error during evaluating constexpr function call {call_node.as_string()}:\n{stderr.decode()}",
